@@ -99,6 +99,10 @@ func (s *seq) onStall(what string, op *opRec) bool {
 		site := "api"
 		if b, ok := detail["packages"].([]string); ok && len(b) > 0 {
 			site = strings.Join(b, "+")
+		} else if b, ok := detail["blocked_on_channel_send_in"].([]string); ok && len(b) > 0 {
+			// no storage lock involved: name the portbase function that waits on a
+			// channel with locks held
+			site = strings.Join(b[:min(2, len(b))], "+")
 		}
 		s.e.b.Extra["avoid_after_wedge"] = s.stepTag
 		if op != nil {
@@ -1199,6 +1203,112 @@ func (s *seq) stepConcurrent() {
 }
 
 func anyMap(m map[string]any) any { return m }
+
+// stepSlowClient: a subscriber that does not read (the send function holds the API's
+// goroutine on the subscription's first notification) while more changes match its
+// query than the subscription's feed can hold: inserts into one stored record through
+// the API (a hashmap storage hands out the stored object: all of them work on the same
+// record and its lock) plus a privileged writer. While the client is slow anything may
+// wait; once it reads again everything must drain: every request gets its terminal
+// reply, the cancel is answered with done, nothing stays blocked. No notification is
+// demanded: the feed may have been full, and a full feed drops.
+func (s *seq) stepSlowClient() {
+	d := s.e.w.db(vlib.Pick(s.r, "hmap", "hmsd"))
+	tag := "slow-client/" + d.Backend
+	if !s.allowed(tag) || !s.idle() {
+		return
+	}
+	prefix := fmt.Sprintf("api/b%d/sc%d-%d/", s.e.spec.Batch, s.no, len(s.c.ops))
+	hot := d.Name + ":" + prefix + "hot"
+	s.note("create/" + d.Backend)
+	cr := s.c.request(s.e.newOpID(s.r), "create", hot+`|J{"n":1,"s":"alpha-1","b":true,"ctr":0}`, tag, d.Backend)
+	if !s.settle(cr) || s.lastType(cr) != "success" || !s.idle() {
+		return
+	}
+	before, ok := s.e.waitIdle()
+	if !ok {
+		s.onStall("handlers to finish", nil)
+		return
+	}
+	s.note("sub/" + d.Backend)
+	id := s.e.newOpID(s.r)
+	gate, open := s.c.armGate(id, "new", "upd")
+	defer open()
+	sub := s.c.request(id, "sub", "query "+d.Name+":"+prefix, tag, d.Backend)
+	if !s.idle() {
+		return
+	}
+	if after, _ := s.e.waitIdle(); after != before+1 {
+		s.recordOutcome(sub)
+		return
+	}
+	sub.Established = true
+	s.e.b.Count("subs_established", 1)
+	s.e.b.Count("slow_client_steps", 1)
+	// the change whose notification the slow client does not finish reading
+	first := s.c.request(s.e.newOpID(s.r), "insert", hot+`|{"ctr":1}`, tag, d.Backend)
+	s.note("insert/" + d.Backend)
+	held := false
+	if !s.c.waitCond(func() bool { held = gate.hit; return held }) || !held {
+		open()
+		s.idle()
+		s.recordOutcome(first)
+		return
+	}
+	// more matching changes than the feed holds (1000), all while the client is slow
+	n := s.r.Range(1040, 1200)
+	flood := make([]*opRec, 0, n)
+	for i := 0; i < n; i++ {
+		flood = append(flood, s.c.request(s.e.newOpID(s.r), "insert", fmt.Sprintf(`%s|{"ctr":%d}`, hot, i+2), tag, d.Backend))
+	}
+	s.e.b.Count("req_insert", int64(n))
+	finished := make(chan struct{})
+	go func() {
+		defer close(finished)
+		for i := 0; i < 12; i++ {
+			_ = s.e.w.putWrapper(fmt.Sprintf("%s:%sp%02d", d.Name, prefix, i), dsd.JSON, []byte(`{"n":2,"p":true}`), nil)
+		}
+	}()
+	// (harness pacing only: let the flood run into the closed gate; what has not
+	// finished by then finishes, or not, with the gate open - that is what is judged)
+	s.c.waitCondShort(func() bool {
+		for _, op := range flood {
+			if terminalCount(op) < 1 {
+				return false
+			}
+		}
+		return true
+	})
+	open()
+	if !s.idle() { // watches the privileged writer, too; a stall is decided structurally
+		return
+	}
+	<-finished
+	s.e.b.Count("slow_client_flood_requests", int64(n))
+	s.get(d, hot, "get/after-flood")
+	s.note("delete/" + d.Backend)
+	del := s.c.request(s.e.newOpID(s.r), "delete", hot, tag, d.Backend)
+	if !s.settle(del) {
+		return
+	}
+	s.recordOutcome(del)
+	s.c.cancel(sub, "cancel/sub")
+	s.e.b.Seen("cancel_points", "sub:slow-client")
+	if !s.idle() {
+		return
+	}
+	s.recordOutcome(sub)
+	s.recordOutcome(first)
+	answered := 0
+	for _, op := range flood {
+		if s.c.nReplies(op) > 0 {
+			answered++
+		}
+	}
+	s.e.b.Count("slow_client_flood_answered", int64(answered))
+	// the automaton (finish) demands exactly one terminal per insert, the done of
+	// the subscription and nothing foreign
+}
 
 // stepGated: a subscription request meets writes that happen while it is being served.
 //
